@@ -167,12 +167,11 @@ func (r *Runner) resolve(ctx context.Context, v Expression) (res interface{}, er
 func formatInput(v interface{}) (interface{}, error) {
 	switch n := v.(type) {
 	case int:
-		strconv.Itoa(n)
-		return newDecimalBig().SetFloat64(float64(n)), nil
+		return newDecimalBig().SetMantScale(int64(n), 0), nil
 	case int32:
-		return newDecimalBig().SetFloat64(float64(n)), nil
+		return newDecimalBig().SetMantScale(int64(n), 0), nil
 	case int64:
-		return newDecimalBig().SetFloat64(float64(n)), nil
+		return newDecimalBig().SetMantScale(n, 0), nil
 	case float32:
 		// 避免精度损失
 		nStr := strconv.FormatFloat(float64(n), 'f', -1, 64)
@@ -1287,7 +1286,7 @@ func funToString(v interface{}) (string, error) {
 func funToInt(v interface{}) (*decimal.Big, error) {
 	n := convToNumber(v)
 	iv, _ := n.Int64()
-	return newDecimalBig().SetFloat64(float64(iv)), nil
+	return newDecimalBig().SetMantScale(iv, 0), nil
 }
 
 func funToFloat(v interface{}) (*decimal.Big, error) {
